@@ -195,6 +195,14 @@ def exec_history(job):
                 else:
                     e["idx"] = op["idx"]
                     acl.insert(op["idx"] - 1, obj)
+            elif a == "EditEntry":
+                # a public in-place edit of one entry: an address that names a group is re-pointed to a plain address
+                for x in leaves_of(acl):
+                    if type(x).__name__ == "Ace":
+                        for ad in (x.srcaddr, x.dstaddr):
+                            if ad.type == "addrgroup" and ad.items:
+                                ad.line = op["text"]
+                                break
             elif a == "TcamCount":
                 e["ret_int"] = int(acl.tcam_count())
             elif a == "DeleteNote":
@@ -292,6 +300,8 @@ def seed_acl(rng, plat, n=None, numbered=None, groups=True, headings=True, multi
             pool.append(rng.choice(pool))       # exact duplicate
     rng.shuffle(pool) if rng.random() < 0.3 else None
     pool = [native_only(ln, plat) for ln in pool]
+    if plat == "ios":      # a port listed twice (by number and by name, or repeated) is still one port
+        pool = [dup_port(rng, ln) if rng.random() < 0.12 else ln for ln in pool]
     for k, ln in enumerate(pool[:n]):
         if headings and rng.random() < 0.25:
             lines.append("remark " + rng.choice(HEADINGS + ["plain note", "= H1, details"]))
@@ -302,7 +312,16 @@ def seed_acl(rng, plat, n=None, numbered=None, groups=True, headings=True, multi
             w = rand_w(rng)
             gdict.setdefault(name, [rng.choice(spellings_ace(m, plat)) for m in [w, narrow_w(rng, w)][: rng.randint(0, 2)]])
             kwd = "addrgroup" if plat == "nxos" else "object-group"
-            ln = f"{parts[0]} ip {kwd} {name} any"
+            name2 = rng.choice(["GA", "GB", "GC"])
+            r_ = rng.random()
+            if r_ < 0.5:
+                ln = f"{parts[0]} ip {kwd} {name} any"
+            elif r_ < 0.75:
+                ln = f"{parts[0]} ip any {kwd} {name}"
+            else:
+                w2 = rand_w(rng)
+                gdict.setdefault(name2, [rng.choice(spellings_ace(m, plat)) for m in [w2, narrow_w(rng, w2), rand_w(rng)][: rng.randint(0, 3)]])
+                ln = f"{parts[0]} ip {kwd} {name} {kwd} {name2}"
         lines.append(ln)
     if not multi or plat == "nxos":
         pass
@@ -311,6 +330,14 @@ def seed_acl(rng, plat, n=None, numbered=None, groups=True, headings=True, multi
         lines = [f"{start + i * step} {s}" for i, s in enumerate(lines)]
     header = "ip access-list extended ACL1" if plat == "ios" else "ip access-list ACL1"
     return header, lines, gdict
+
+
+def dup_port(rng, line):
+    t = line.split()
+    for k in range(len(t) - 1):
+        if t[k] in ("eq", "neq") and t[k + 1].isdigit() and (k + 2 >= len(t) or not t[k + 2].isdigit()):
+            return " ".join(t[: k + 2] + [t[k + 1]] + t[k + 2:])
+    return line
 
 
 def native_only(line, plat):
@@ -353,6 +380,8 @@ def rand_op(rng, plat_now, weights):
         op["idx"] = rng.randint(1, 5)
     elif a in ("Shading", "ShadowOf", "DeleteShadow"):
         op["skip"] = rng.choice([None, None, ["addrgroup"], ["nc_wildcard"], ["addrgroup", "nc_wildcard"]])
+    elif a == "EditEntry":
+        op["text"] = rng.choice(["host 10.1.2.3", "any", "10.0.0.0 0.0.0.255"])
     elif a == "TwinOp":
         op["op"] = rng.choice(["platform", "resequence", "pop", "note", "members", "ports", "line", "delete_shadow", "sort"])
     return op
@@ -390,7 +419,7 @@ def fill_permutations(rng, jobs):
     return jobs
 
 
-def run_histories(prop, jobs, tier, mcs, extra_rule, gens=None):
+def run_histories(prop, jobs, tier, mcs, extra_rule, gens=None, owners=None):
     ev_lists = core.pmap(exec_history, jobs)
     dropped = sum(1 for evs in ev_lists if not evs)
     events = [e for evs in ev_lists for e in evs]
@@ -399,7 +428,7 @@ def run_histories(prop, jobs, tier, mcs, extra_rule, gens=None):
     out = []
     for v in verdicts:
         owner = v["clause"].split(".")[0]
-        if not (owner == prop or owner == "machinery"):
+        if not (owner == prop or owner == "machinery" or (owners and owner in owners)):
             continue
         j, evs = by_tid[v["tid"]]
         ev = next((x for x in evs if x["i"] == v["i"]), None)
